@@ -200,11 +200,11 @@ def _batches(rng, tier):
     # ---- pairs, n = 2
     for T in TYPES:
         clo, chi, lo, hi = RANGE[T]
-        if thorough and T in "iu":
+        if thorough:
             cs = cube(clo, chi, 2)
             ops = [f"pairs {T} 2 {vs(a)} {vs(b)} {lo} {hi} {clo} {chi}" for a in cs for b in cs]
             yield Batch(f"pairs-{T}2", ops, exhaustive=True, note="all pairs of 2-D boxes with corners in the full range x all lattice points")
-        elif thorough or T in "iu":
+        elif T in "iu":
             qlo, qhi, _, _ = QRANGE[T]
             cs = cube(qlo, qhi, 2)
             ops = [f"pairs {T} 2 {vs(a)} {vs(b)} {lo} {hi} {qlo} {qhi}" for a in cs for b in cs]
@@ -223,12 +223,12 @@ def _batches(rng, tier):
     for T in TYPES:
         clo, chi, lo, hi = (-1, 1, -2, 2) if SIGNED[T] else (0, 2, 0, 3)
         cs = cube(clo, chi, 3)
-        if thorough and T in "iu":
+        if thorough:
             ops = [f"pairs {T} 3 {vs(a)} {vs(b)} {lo} {hi} {clo} {chi}" for a in cs for b in cs]
             yield Batch(f"pairs-{T}3-small", ops, exhaustive=True, note=f"all pairs of 3-D boxes with corners in [{clo},{chi}] x all lattice points of [{lo},{hi}]^3")
         else:
             r = rng.fork("pairs3" + T)
-            cnt = (60 if T in "iu" else 12) * (4 if thorough else 1)
+            cnt = 60 if T in "iu" else 12
             ops = [f"pairs {T} 3 {vs(r.choice(cs))} {vs(r.choice(cs))} {lo} {hi} {clo} {chi}" for _ in range(cnt)]
             yield Batch(f"pairs-{T}3-small-sampledA", ops, note=f"seeded 3-D boxes A against every 3-D box B with corners in [{clo},{chi}]")
     # ---- pairs and unary, n = 4: corners in {0,1} (B: all 256 boxes), A sampled
@@ -244,8 +244,17 @@ def _batches(rng, tier):
     for T in TYPES:
         ev = EXT[T]
         ops = [f"cmp {T} 1 {a} {b} {c} {d}" for a in ev for b in ev for c in ev for d in ev]
+        ops += [f"extp {T} 1 {a} {b} {c}" for a in ev for b in ev for c in ev]
+        if not SIGNED[T]:
+            # arithmetic wraps: every function can be observed there
+            ops += [f"shr {T} 1 {a} {b} {c}" for a in ev for b in ev for c in ev]
+            ops += [f"strel {T} 1 {a} {b} {c}" for a in ev for b in ev for c in ev]
+            ops += [f"unary {T} 1 {a} {b} {c} {c + 1}" for a in ev for b in ev for c in (0, ev[-1] - 1)]
+            ops += [f"pair {T} 1 {a} {b} {c} {d} 0 1" for a in ev for b in ev for c in ev for d in ev]
         yield Batch(f"cmp-extreme-{T}1", ops, exhaustive=True,
-                    note="intersects / contains (both ways) / intersection / extend_bounding_box / interval for every pair of 1-D boxes with corners at the ends of the type's range")
+                    note="intersects / contains (both ways) / intersection / extend_bounding_box / interval for every pair of 1-D boxes with corners at the "
+                         "ends of the type's range; contains_point / extend-by-point for every box and point there; unsigned types: also shrink / stretch / "
+                         "stretch_relative / unary / pair (wrap-around)")
         r = rng.fork("cmpx" + T)
         ops = []
         for _ in range(4000 if thorough else 600):
@@ -317,12 +326,13 @@ def _batches(rng, tier):
                          "(A, B, V with coordinates in [-1,1] / [0,2])" + ("" if full else " - seeded sample of the states"))
         ops = []
         for n, cnt in ((2, 40 if T in "iu" else 10), (3, 10), (4, 6)):
-            for _ in range(cnt * (8 if thorough else 1)):
+            for _ in range(cnt * (30 if thorough else 1)):
                 ops.append(progs_op(T, n, rand_state(r, T, n), 2))
         if thorough:
             sts = all_states(T, 1)
-            ops += [progs_op(T, 1, r.choice(sts), 3) for _ in range(40)]
-            ops += [progs_op(T, 2, rand_state(r, T, 2), 3) for _ in range(10)]
+            ops += [progs_op(T, 1, r.choice(sts), 3) for _ in range(80)]
+            ops += [progs_op(T, 2, rand_state(r, T, 2), 3) for _ in range(30)]
+            ops += [progs_op(T, 3, rand_state(r, T, 3), 3) for _ in range(10)]
         yield Batch(f"progs-{T}234", ops, note="all statement sequences of length 2 (thorough: also 3) from seeded 2-D, 3-D, 4-D states")
     # ---- accumulation loops: b = extend_bounding_box(b, p_j); a = extend_bounding_box(a, b_j); a = intersection(a, b_j)
     for T in TYPES:
@@ -412,15 +422,21 @@ def _batches(rng, tier):
 
 
 MANIFEST = {
-    "level_text": ("Machine-checked proof (Lean 4) over an executable model that mirrors the box headers index by index: for every dimension n "
+    "level_text": ("Machine-checked proof (Lean 4, 99 theorems) over an executable model that mirrors the box headers index by index: for every dimension n "
                    "and all integer coordinates, contains_point is membership in the half-open point set, the intersection's points are exactly "
                    "the common points and it is the null box when intersects is false, intersects <-> common point and contains <-> subset for "
-                   "non-empty boxes, extend_bounding_box is the least box containing both, and size/corner_points/center/shrink/stretch_absolute/"
-                   "constructors/comparison are characterised coordinate-wise (signed: under the no-overflow guard with a separate fault theorem; "
-                   "unsigned: modulo 2^bits). The model is tied to the code by a differential correspondence that is exhaustive over all pairs of "
-                   "1-D and 2-D boxes with corners in [-3,3] (int) / [0,6] (unsigned) and all lattice points, and seeded random in 3-D."),
+                   "non-empty boxes, extend_bounding_box is the least box containing both (also accumulated over any list of boxes or points, in any "
+                   "order), and size/corner_points/center/shrink/stretch_absolute/stretch_relative/structure_cast/constructors/comparison/operator<< "
+                   "are characterised coordinate-wise (signed: under the no-overflow guard with a separate fault theorem; unsigned: modulo 2^bits, "
+                   "including round trips and the strict total order for wrapped sizes); writes through the mutable pos()/max() and all statement "
+                   "sequences over two box objects (aliasing, self-assignment, swap, move) are modelled as a state machine with theorems by induction "
+                   "over the sequence. The model is tied to the code by a differential correspondence for int, unsigned, long, unsigned long and "
+                   "N = 0..4 that is exhaustive over all pairs of 1-D and 2-D boxes with corners in [-3,3] (int) / [0,6] (unsigned) and all lattice "
+                   "points, over all statement sequences of length <= 2 from every small 1-D state, over one axis at a time in 2-4 dimensions, over "
+                   "all 1-D pairs at the ends of each type's range, and seeded random in 3-D / 4-D."),
     "level_note": ("Trusted: Lean kernel + propext/Classical.choice/Quot.sound; the hand-written model's fidelity outside the exercised inputs; "
-                   "harness and digest protocol; C++ integer semantics for int/unsigned as modelled by Ty.norm. No sorry/axiom/native_decide."),
+                   "harness and digest protocol; C++ integer semantics for int/unsigned/long/unsigned long as modelled by Ty.norm / Ty.wrap. "
+                   "No sorry/axiom/native_decide."),
     "technique": "Lean 4 proof over hand-written executable model + exhaustive differential correspondence (ASan/UBSan harness)",
     "design_ref": "DESIGN.md §5 C13",
 }
